@@ -454,7 +454,10 @@ def run_path(ctx, case):
     try:
         exp = eval(("r" if path.startswith("[") else "r.") + path, {"r": _Any()})  # noqa: S307 - generated by our own grammar
     except Exception:
-        ctx.fail("path:accepts_invalid", case, f"Alias({path!r}) was accepted and resolved to {getattr(got, '_trace', got)!r} but is not a valid Python access path")
+        # accepted by the library although Python would not read it (e.g. a segment starting with a digit, '0.0'): the
+        # property speaks about dotted and ["key"] paths and is silent on how lenient the parser is - no verdict
+        ctx.count("path:accepted_not_python:abstained")
+        ctx.case(case, False)
         return
     if getattr(got, "_trace", None) != getattr(exp, "_trace", None):
         ctx.fail("path:resolves_differently", case, f"Alias({path!r}) resolves to {getattr(got, '_trace', got)!r}; Python evaluates {exp._trace!r}")
